@@ -5,6 +5,7 @@ import (
 	"encoding/json"
 	"fmt"
 	"io"
+	"os"
 	"path/filepath"
 	"regexp"
 	"sort"
@@ -65,6 +66,11 @@ func runC16(env *core.Env) {
 		pres = append(pres, fx3.Store())
 		// a store whose last writer died mid-line
 		pres = append(pres, tornVariants(rich.Store)[0])
+		// ... or died just before the final newline: the last event is complete and counts, the next append must keep it
+		// (that last event renames the task most requests address, so a reply built from it shows if it gets lost)
+		fx4 := FixFrom(env, w0, rich.Store, rich.N)
+		fx4.Must(core.R("", "--json", "set", rich.ByState["todo"]).In(`{"title":"t-todo renamed last"}`))
+		pres = append(pres, tornVariants(fx4.Store())[1])
 	}
 	var cases []c10Case
 	for _, c := range c10Catalogue(rich, env.Thorough()) {
@@ -307,11 +313,49 @@ func runC16(env *core.Env) {
 		}
 		samples.add(map[string]interface{}{"cmd": req.Shell(), "reply": clipS(string(res.Out), 160)})
 	})
+	// ---- stdout that cannot be written (redirected to a full device): a command that cannot deliver its one JSON value
+	// has not succeeded - it must exit non-zero and say why on stderr. Every success-oriented request, on the rich store.
+	var fullRuns, fullSkipped int64
+	if _, err := os.Stat("/dev/full"); err == nil {
+		env.Parallel(len(extra), func(w *core.Worker, i int) {
+			r := extra[i]
+			rich.Store.Materialize(w.Proj)
+			r.Cwd = w.Proj
+			r.RandBase = -1
+			plain := w.Spawn(r)
+			if plain.Exit != 0 || len(plain.Out) == 0 {
+				atomic.AddInt64(&fullSkipped, 1)
+				return
+			}
+			rich.Store.Materialize(w.Proj)
+			r.StdoutTo = "/dev/full"
+			res := w.Spawn(r)
+			atomic.AddInt64(&fullRuns, 1)
+			if res.Exit == 0 || len(bytes.TrimSpace(res.Err)) == 0 {
+				sig := "C16 kind=stdout-write-failure-not-reported cmd=" + opClass(r)
+				if env.ViolationSeen(sig) {
+					return
+				}
+				rel := extra[i]
+				rel.Cwd = "."
+				rel.StdoutTo = "/dev/full"
+				tr := mkTrace(rich.Store, "stdout is /dev/full", nil)
+				tr.Steps = []core.Req{rel}
+				tr.Shell = []string{extra[i].Shell() + " >/dev/full"}
+				tr.FailIf = []Assert{{Kind: "exit_zero", Step: 1}}
+				if res.Exit != 0 {
+					tr.FailIf = []Assert{{Kind: "exit_nonzero", Step: 1}, {Kind: "err_empty", Step: 1}}
+				}
+				env.Violation(sig, fmt.Sprintf("`%s >/dev/full` exits %d with stderr %q: the JSON value could not be written, yet the failure is not reported", extra[i].Shell(), res.Exit, clipS(string(res.Err), 100)), tr)
+			}
+		})
+	}
 	validated := conf.run(env)
 	env.Finish("model_checking", map[string]interface{}{
+		"stdout_unwritable_runs": fullRuns, "stdout_unwritable_skipped": fullSkipped,
 		"states": len(pres), "transitions": evals, "traces_validated_against_impl": validated, "samples": samples.list,
 		"evaluations": evals, "distinct_nontrivial": shapes.len(), "exhaustive": env.TimeLeft(),
-		"rule":       "the C10 request catalogue (every command, field combination, input mode, failing variants) + success-oriented requests, with --json before and after the subcommand, on 5 pre-states (rich, fresh, compacted, with a dependency chain, with a torn tail); distinct = (command family, outcome shape)",
+		"rule":       "the C10 request catalogue (every command, field combination, input mode, failing variants) + success-oriented requests, with --json before and after the subcommand, on 6 pre-states (rich, fresh, compacted, with a dependency chain, with a torn tail, with a complete last event lacking its newline); every success-oriented request once more with stdout on /dev/full (must exit non-zero with a message); distinct = (command family, outcome shape)",
 		"successful": okCount, "failing": failCount, "truth_comparisons": truthChecks, "outcome_shapes": shapes.snapshot(),
 		"unconfirmed_candidates": unconfirmed.Load(),
 	}, []string{"finite request catalogue over small value domains", "quickstart/version/--help print documentation, not store state, and are outside the alphabet"})
